@@ -320,7 +320,7 @@ func TestC20Nested(t *testing.T) {
 	ev := Ev("C20")
 	ev.SetRule("rapid: documents with top-level title/tag, nested arrays A{x,y,sub{u,v}} (two levels) and sibling array B{z} (the sibling array and the tag field are also given names that extend the nested array's name: AB, A_2, Atag, A_tag), 0-3 elements each over a 3-word vocabulary, indexed under the nested mapping and under its flat twin; histories with updates, deletes, re-creations, forced merges (between batches, and - through the batch.beforeIntroduce hook - between a batch's segment preparation and its introduction) and reopen on scorch (memory/disk); " +
 		"queries: conjunctions of 2-3 leaves all on A (incl. chains A.x AND A.sub.u), alone or as a clause of a conjunction / disjunction / boolean with a clause on B, title or tag; " +
-		"oracle = tree model (nested: one element of A - and one sub element for sub leaves - satisfies all conjuncts; other clauses per parent; flat: each leaf met by some element); hits are parent ids, each once, Total==len(hits), DocCount==#parents, match-all returns exactly the parents, deleted/updated parents vanish with their elements, nested hits are a subset of flat hits for pure conjunctions; " +
+		"oracle = tree model (nested: one element of A - and one sub element for sub leaves - satisfies all conjuncts; other clauses per parent; flat: each leaf met by some element); hits are parent ids, each once, Total==len(hits), DocCount==#parents, match-all returns exactly the parents, deleted/updated parents vanish with their elements, nested hits are a subset of flat hits for pure conjunctions, SearchAfter/SearchBefore pages (sort _id) from a drawn matching parent are the following/preceding parents with the same Total; " +
 		"non-trivial = some live parent has two elements that jointly but not individually satisfy the inner conjunction (nested and flat answers differ) and the history updated or deleted a parent")
 	_, boolKnown := KnownOpen("C20", c20KnownBoolean)
 	checkPropN(t, "C20", 250, func(t *rapid.T) {
@@ -482,6 +482,41 @@ func TestC20Nested(t *testing.T) {
 			}
 			check("nested", nh, ntot, wantN)
 			check("flat", fh, ftot, wantF)
+			// paging through the parents with SearchAfter / SearchBefore (sort _id): pages are
+			// parents too, Total stays the number of matching parents
+			paged := false
+			if len(wantN) >= 2 && rapid.Bool().Draw(t, "page") {
+				paged = true
+				k := rapid.IntRange(0, len(wantN)-1).Draw(t, "pageFrom")
+				size := rapid.IntRange(1, 3).Draw(t, "pageSize")
+				for _, before := range []bool{false, true} {
+					req := bleve.NewSearchRequestOptions(bq, size, 0, false)
+					req.SortBy([]string{"_id"})
+					var want []string
+					if before {
+						req.SetSearchBefore([]string{wantN[k]})
+						lo := k - size
+						if lo < 0 {
+							lo = 0
+						}
+						want = wantN[lo:k]
+					} else {
+						req.SetSearchAfter([]string{wantN[k]})
+						hi := k + 1 + size
+						if hi > len(wantN) {
+							hi = len(wantN)
+						}
+						want = wantN[k+1 : hi]
+					}
+					res, err := SearchWatchdog(nidx, req)
+					if err != nil {
+						t.Fatalf("nested search %s paging: %v\n%s", canonJSON(nq), err, desc())
+					}
+					if got := hitIDs(res); strings.Join(got, ",") != strings.Join(want, ",") || int(res.Total) != len(wantN) {
+						t.Fatalf("nested mapping, query %s, search_before=%v from parent %s size %d: hits %v Total %d, want %v Total %d (all matching parents %v)\n%s", canonJSON(nq), before, wantN[k], size, got, res.Total, want, len(wantN), wantN, desc())
+					}
+				}
+			}
 			separates := strings.Join(wantN, ",") != strings.Join(wantF, ",")
 			cl := []string{"shape:" + nq.Shape, "engine:" + cfg.Engine}
 			for _, l := range nq.Inner {
@@ -492,6 +527,9 @@ func TestC20Nested(t *testing.T) {
 			}
 			if separates {
 				cl = append(cl, "nested!=flat")
+			}
+			if paged {
+				cl = append(cl, "search-after/before-over-parents")
 			}
 			if mergeWindows > 0 {
 				cl = append(cl, "merge-introduced-between-batch-preparation-and-introduction")
